@@ -835,6 +835,59 @@ func c04UnusualDates(run *ev.Run) {
 			}
 		}
 	}
+	// a changelog file that exists but lists no entries yet
+	for ci, body := range []string{"", "[]\n", "# nothing released yet\n"} {
+		none := filepath.Join(dir, fmt.Sprintf("no-entries-%d.yaml", ci))
+		_ = os.WriteFile(none, []byte(body), 0o644)
+		s := &gen.Spec{Name: "nochanges", Arch: "amd64", Version: "1.0.0", Maintainer: "S <s@example.com>", Description: "d", MTime: 1500000000, Changelog: none}
+		s.RPM.BuildHost = "verif-host"
+		s.Contents = []*gen.Content{{Src: a, Dst: "/opt/dates/a.txt"}}
+		for _, f := range formats {
+			run.Case(fmt.Sprintf("changelog-without-entries|%d|%s", ci, f), true)
+			res := buildYAML(s.YAML(), f)
+			if res.Err != nil || res.Panic != "" {
+				continue // refusing such a changelog is an answer too
+			}
+			p := dec.Decode(f, res.Bytes, false)
+			for _, x := range structural(f, res.Bytes, p, false, false) {
+				run.Violate("C04/"+f+"/"+x.kind, map[string]any{"changelog": fmt.Sprintf("file without entries (%q)", body), "detail": ev.Short(x.detail, 400)})
+			}
+		}
+	}
+	// owner and group names outside ASCII, and longer than a tar header field
+	for _, og := range [][2]string{{"w\u00fcrfel", "gr\u00f6\u00dfe"}, {"\u7528\u6237", "root"}, {strings.Repeat("o", 40), "root"}, {"root", strings.Repeat("g", 33)}} {
+		s := &gen.Spec{Name: "owners", Arch: "amd64", Version: "1.0.0", Maintainer: "S <s@example.com>", Description: "d", MTime: 1500000000}
+		s.RPM.BuildHost = "verif-host"
+		s.Contents = []*gen.Content{
+			{Src: a, Dst: "/opt/owners/a.txt", FI: &gen.FI{Owner: og[0], Group: og[1]}},
+			{Type: "dir", Dst: "/var/lib/owners", FI: &gen.FI{Owner: og[0], Group: og[1]}},
+			{Type: "symlink", Src: "/opt/owners/a.txt", Dst: "/opt/owners/link", FI: &gen.FI{Owner: og[0], Group: og[1]}},
+		}
+		for _, f := range formats {
+			run.Case(fmt.Sprintf("owner-names|%s:%s|%s", og[0], og[1], f), true)
+			res := buildYAML(s.YAML(), f)
+			if res.Err != nil || res.Panic != "" {
+				continue // a format may refuse a name it cannot store
+			}
+			p := dec.Decode(f, res.Bytes, false)
+			for _, x := range structural(f, res.Bytes, p, false, false) {
+				run.Violate("C04/"+f+"/"+x.kind, map[string]any{"owner": og[0], "group": og[1], "detail": ev.Short(x.detail, 400)})
+			}
+			if f == "deb" || f == "ipk" {
+				for _, ta := range []*dec.TarArchive{p.Control, p.DataTar} {
+					if ta == nil {
+						continue
+					}
+					for _, e := range ta.Entries {
+						if e.PAX != nil {
+							run.Violate("C04/"+f+"/tar-member-needs-a-pax-header", map[string]any{"owner": og[0], "group": og[1], "member": e.Name, "pax_records": fmt.Sprint(e.PAX)})
+							break
+						}
+					}
+				}
+			}
+		}
+	}
 }
 
 // c04OddTreeNames: names read from the build host that contain a backslash (an
